@@ -412,7 +412,7 @@ func init() {
 			"number text = shortest decimal representation (strconv 'g' for floats)",
 		},
 		Floors: func(string) map[string]int64 {
-			return map[string]int64{"rendered": 20000, "trees.with-non-ascii-or-tab": 2000, "option-seen.fold": 1000, "option-seen.lonce": 1000, "option-seen.enc": 1000, "option-seen.sym": 1000, "option-seen.delim": 500, "re-rendered-after-option-change": 5000}
+			return map[string]int64{"rendered": 20000, "rendered.through-other-routes": 10000, "rendered.again-after-unrelated-tree": 8000, "trees.with-left-over-errors": 3000, "cases.with-bystander-goroutines": 3000, "trees.with-non-ascii-or-tab": 2000, "option-seen.fold": 1000, "option-seen.lonce": 1000, "option-seen.enc": 1000, "option-seen.sym": 1000, "option-seen.delim": 500, "re-rendered-after-option-change": 5000}
 		},
 	})
 }
